@@ -242,7 +242,7 @@ pub fn generate(tier: Tier, rng: &mut Rng) -> Vec<Case> {
         Tier::Quick => 2500,
         Tier::Thorough => 300_000,
     };
-    let alphabet: Vec<char> = "abcXYZ019 _-.,:;!?é✌🐱'\"\\\n\r\t`\u{0}\u{7}\u{7f}\u{80}\u{ff}\u{100}\u{7ff}\u{800}\u{ffff}\u{10000}\u{10ffff}".chars().collect();
+    let alphabet: Vec<char> = "abcXYZ019 _-.,:;!?é✌🐱\u{a0}\u{85}\u{1680}\u{2003}\u{2028}\u{3000}\u{feff}'\"\\\n\r\t`\u{0}\u{7}\u{7f}\u{80}\u{ff}\u{100}\u{7ff}\u{800}\u{ffff}\u{10000}\u{10ffff}".chars().collect();
     for _ in 0..n {
         let len = rng.below(9);
         let s: String = (0..len).map(|_| *rng.pick(&alphabet)).collect();
